@@ -10,7 +10,8 @@ Driver for the enum area: decodes one case, prints the region and the model / sp
   (case <id> c14    (type …) (blocks B…) (hi N) (neg v…))
   (case <id> c14raw (type …) (blocks B…))
   (case <id> c01enum (flags …) (mode type|list|file|star) (types ("T" <kind> [sel])…) (blocks B…))      -- C01 leg
-  B = (b S…)   S = (s (n "A" "B"…) (t "T")|(c)|(e -|"T") (v 1 2…))
+  B = (b S…)   S = (s (n "A" "B"…) (t "T" [q])|(c)|(e -|"T") (v 1 2…))     q: the type is not a plain identifier
+  every enum case may carry (locals B…): the const declarations inside function bodies
 -/
 namespace ShootVerif.Drive
 open ShootVerif.Enum
@@ -27,6 +28,7 @@ def parseSpec (s : Sexp) : Option VSpec := do
   if let some t := s.field? "t" then
     match t.args with
     | [.atom ty] => some { names, ty := some (nm ty), hasVals := true, exprTy := none, vals }
+    | [.atom ty, .atom "q"] => some { names, ty := some (nm ty), hasVals := true, exprTy := none, vals, tyIdent := false }
     | _ => none
   else if (s.field? "c").isSome then
     some { names, ty := none, hasVals := false, exprTy := none, vals }
@@ -43,8 +45,11 @@ def parseInput (p : Sexp) : Option Input := do
   | .atom t :: .atom sg :: bits :: rest =>
     let b ← bits.asNat?
     let blocks ← (← p.field? "blocks").args.mapM (fun bl => bl.args.mapM parseSpec)
+    let locals ← match p.field? "locals" with
+      | some l => l.args.mapM (fun bl => bl.args.mapM parseSpec)
+      | none => some []
     let _ := rest       -- an optional trailing atom (the kind's spelling) is accepted and ignored
-    some { T := nm t, kind := ⟨sg == "s", b⟩, blocks }
+    some { T := nm t, kind := ⟨sg == "s", b⟩, blocks, locals }
   | _ => none
 
 /-- kind name ↦ (kind, listed by ListTypes) -/
@@ -89,10 +94,10 @@ def staleVariants (p : Sexp) : List (String × (Name → Option Int)) :=
 /-! ### C04 -/
 
 def c04Model (i : Input) (win : List Int) (stale : List (String × (Name → Option Int))) : List (String × String) :=
-  match gen i.kind i.T i.blocks with
+  match gen i.kind i.T i.allBlocks with
   | .skipped => [("exit", "0"), ("file", "none")]
   | .file cs =>
-    if !compiles false i.T cs then [("exit", "0"), ("compile", "error")]
+    if !compiles false i.T i.decl cs then [("exit", "0"), ("compile", "error")]
     else
       [("exit", "0"), ("compile", "ok"),
        ("values", commaInts (valuesT cs)), ("strings", commaNames (stringsT i.T cs)),
@@ -163,10 +168,10 @@ structure C12Probes where
   encs : List Int
 
 def c12Model (i : Input) (q : C12Probes) : List (String × String) :=
-  match gen i.kind i.T i.blocks with
+  match gen i.kind i.T i.allBlocks with
   | .skipped => [("exit", "0"), ("file", "none")]
   | .file cs =>
-    if !compiles false i.T cs then [("exit", "0"), ("compile", "error")]
+    if !compiles false i.T i.decl cs then [("exit", "0"), ("compile", "error")]
     else
       let vm := valueMap i.T cs
       let codec (on : Bool) (tag : String) (rt : Int → Dec) : List (String × String) :=
@@ -238,7 +243,7 @@ def c12tCase (id : String) (payload : List Sexp) : List String :=
     let ints := probesOf p
     let pr := ints.map (fun (_, kV, v) => (kV, v))
     let reg := if !WF i || !probesOK pr then "Out" else "WF"
-    match gen i.kind i.T i.blocks with
+    match gen i.kind i.T i.allBlocks with
     | .file cs =>
       both id (ints.map (fun (n, kV, v) => (s!"isenum:{n}:{v}", toString (isEnum i.kind kV (valuesT cs) v))))
         (ints.map (fun (n, _, v) => (s!"isenum:{n}:{v}", toString (specIsEnum i.decl v)))) reg
@@ -264,7 +269,8 @@ def c14At (w : Nat) (i : Input) (cs : List Const) (hi : Nat) (negs : List Int) :
   let tm : Bit.Table w := Bit.table i.T cs
   let ts : Bit.Table w := Bit.table i.T (specSorted i.decl)
   (c14Lines sg tm (Bit.string sg tm) Bit.has Bit.add Bit.remove hi negs,
-   c14Lines sg ts (Bit.specString sg ts) Bit.specHas Bit.specAdd Bit.specRemove hi negs)
+   c14Lines sg ts (if Bit.WFt sg ts then Bit.specString sg ts else Bit.specGeneral sg ts)
+     Bit.specHas Bit.specAdd Bit.specRemove hi negs)
 
 def c14Case (id : String) (payload : List Sexp) : List String :=
   let p := Sexp.list (.atom "p" :: payload)
@@ -274,11 +280,11 @@ def c14Case (id : String) (payload : List Sexp) : List String :=
     let hi := ((intsOf p "hi").headD 0).toNat
     let negs := intsOf p "neg"
     let hd := [("exit", "0"), ("compile", "ok")]
-    match gen i.kind i.T i.blocks with
+    match gen i.kind i.T i.allBlocks with
     | .skipped => both id [("exit", "0"), ("file", "none")] hd (regionBit i)
     | .file cs =>
       -- the copy under observation has the defined table substituted, so it compiles like a plain enum
-      if !compiles false i.T cs then both id [("exit", "0"), ("compile", "error")] hd (regionBit i)
+      if !compiles false i.T i.decl cs then both id [("exit", "0"), ("compile", "error")] hd (regionBit i)
       else
         let (m, s) := match i.kind.bits with
           | 8 => c14At 8 i cs hi negs
@@ -294,8 +300,8 @@ def c14rawCase (id : String) (payload : List Sexp) : List String :=
   | none => err id "bad-enum-case"
   | some i =>
     let reg := if !WF i then "Out" else if F_undefined_map true then "F_undefined_map" else "WF"
-    match gen i.kind i.T i.blocks with
-    | .file cs => both id [("compile", if compiles true i.T cs then "ok" else "error")] [("compile", "ok")] reg
+    match gen i.kind i.T i.allBlocks with
+    | .file cs => both id [("compile", if compiles true i.T i.decl cs then "ok" else "error")] [("compile", "ok")] reg
     | _ => both id [] [] "Out"
 
 /-! ### C01 leg -/
@@ -317,8 +323,11 @@ def c01enumCase (id : String) (payload : List Sexp) : List String :=
   | some blocks =>
     let selected := if mode == "file" || mode == "star" then (tys.filter (·.2.1)).map (·.1) else (tys.filter (·.2.2)).map (·.1)
     let wf := blocks.all (fun b => b.all (fun s => s.names.length == s.vals.length)) && !tys.isEmpty
+    let locals := match p.field? "locals" with
+      | some l => (l.args.mapM (fun bl => bl.args.mapM parseSpec)).getD []
+      | none => []
     let pc : PkgCase := { bit := fl.hasFlag "bit", sql := fl.hasFlag "sql", gorm := fl.hasFlag "gorm",
-                          types := selected, blocks := blocks, wellFormed := wf }
+                          types := selected, blocks := blocks, locals := locals, wellFormed := wf }
     let (ex, written, comp) := c01Model pc
     let model : List (String × String) :=
       if ex != 0 then [("exit", toString ex)]
